@@ -51,3 +51,14 @@ Theorem C09_not_live_error_choice :
         rdelete (run b ops) t = (run b ops, RErr (DENotFound t))).
 Proof. exact reach_delete_not_live. Qed.
 Print Assumptions C09_not_live_error_choice.
+
+(* ---- the prune and merge tests of delete, REGENERATED from src/node/delete.rs on this run (Gen/Shapes.v) ---- *)
+From Coq Require Import String.
+From WF Require Import Gen.Shapes Proofs.ShapesP.
+Theorem C09_prune_and_merge_tests_cover_every_list :
+  bl_eqb gen_is_empty ("self.data.is_none()"%string :: map (fun f => ("self." ++ f ++ ".is_empty()")%string) seven_lists) = true
+  /\ bl_eqb gen_is_compressible
+       ("self.data.is_none()"%string :: "self.static_children.len() == 1"%string
+        :: map (fun f => ("self." ++ f ++ ".is_empty()")%string) (tl seven_lists)) = true.
+Proof. exact prune_tests_shape. Qed.
+Print Assumptions C09_prune_and_merge_tests_cover_every_list.
